@@ -181,7 +181,27 @@ SPEC.update({
                      R(P(L(L(L(Z))), L(L(Z))))),
     "c13.pure": ([NAT, L(Z)], "(fun c l => (ch_chunks c l, ch_ranges c l))", P(L(L(Z)), L(L(NAT)))),
 })
-IMPORTS = "Model.Base Model.Tdc Model.Merge Model.Digest Model.PinTsv Model.Confidence Model.Calibrate Model.Brew Model.PinCols Model.Fs Model.Fdr Model.Peps Model.BrewDecision Model.Strip Model.Picked Model.Grouping Model.Fasta Model.Decoys Model.Pepxml Model.PinVerify Model.CalibrateD Model.Chunks Model.Readers Model.Buffered Model.MatchDecoy"
+PXCELL = SUM((0, "CText", [STR]), (1, "CBool", [B]), (2, "CInt", [Z]), (3, "CAttr", [Z]), (4, "CNum", [Q]), (5, "CNaN", []), (6, "CNegInf", []))
+PXCOL = T(STR, E("KText", "KBool", "KInt", "KFloat"), E("RMeta", "RFeature"), B, L(PXCELL))
+PXROLES = REC("Build_px_roles", STR, L(STR), STR, STR, L(STR), STR, STR, STR, STR, STR, STR)
+SPEC.update({
+    "c02.brew_scores_ens": ([NAT, NAT, L(Z), L(P(NAT, L(Z)))], "bw_brew_scores_ens", R(L(Q))),
+    "c07.brew_ens": ([NAT, NAT, Q, L(REC("Build_bw_fitted", NAT, B, NAT, B, NAT, B, L(L(Z)))), L(REC("Build_bw_coll", L(Z), L(B), L(L(Z))))],
+                     "bw_brew_ens", R(P(L(NAT), P(L(L(Q)), L(B))))),
+    "c20.table": ([STR, L(PXFILE), L(STR), O(Q), B, L(P(STR, O(Q))), L(P(Q, Q)), L(P(P(Z, Z), Q)), L(P(P(Z, P(Z, Z)), Q)), L(P(Q, P(Q, Z))), L(P(Q, STR)), O(P(Q, Q))],
+                  "(fun pre fs ex bin df tnum tlg tmd tmz trp tsf (_ : option (Q * Q)) => match px_read_table "
+                  "(fun s => match find (fun kv => str_eqb s (fst kv)) tnum with Some kv => snd kv | None => None end) "
+                  "(fun x => match find (fun kv => Qeq_bool x (fst kv)) tlg with Some kv => snd kv | None => 0%Q end) "
+                  "(fun a b => match find (fun kv => Z.eqb a (fst (fst kv)) && Z.eqb b (snd (fst kv))) tmd with Some kv => snd kv | None => 0%Q end) "
+                  "(fun a b c => match find (fun kv => Z.eqb a (fst (fst kv)) && Z.eqb b (fst (snd (fst kv))) && Z.eqb c (snd (snd (fst kv)))) tmz with Some kv => snd kv | None => 0%Q end) "
+                  "(fun x => match find (fun kv => Qeq_bool x (fst kv)) trp with Some kv => snd kv | None => (0%Q, 0) end) "
+                  "(fun _ _ _ x => match find (fun kv => Qeq_bool x (fst kv)) tsf with Some kv => snd kv | None => [] end) "
+                  "pre fs ex bin df with "
+                  "| Ok (l, t) => Ok (map (fun p => (p_file p, (p_scan p, (p_charge p, (p_rt p, (p_exp p, (p_calc p, (p_peptide p, (p_proteins p, (px_join_tab (p_proteins p), (p_label p, (p_mc p, (p_ntt p, (p_nmp p, p_scores p)))))))))))))) l, "
+                  "(map (fun c => (c_name c, (c_kind c, (c_role c, (c_logged c, c_cells c))))) (o_cols t), o_roles t)) | Err e => Err e end)",
+                  R(P(L(T(STR, Z, Z, Z, Z, Z, STR, L(STR), STR, B, OZ, OZ, OZ, L(P(STR, STR)))), P(L(PXCOL), O(PXROLES))))),
+})
+IMPORTS = "Model.Base Model.Tdc Model.Merge Model.Digest Model.PinTsv Model.Confidence Model.Calibrate Model.Brew Model.PinCols Model.Fs Model.Fdr Model.Peps Model.BrewDecision Model.Strip Model.Picked Model.Grouping Model.Fasta Model.Decoys Model.Pepxml Model.PinVerify Model.CalibrateD Model.Chunks Model.Readers Model.Buffered Model.MatchDecoy Model.PepxmlPost"
 
 
 class _Toks:
@@ -365,7 +385,7 @@ def run(prop, max_goals=150, seed=1):
     for entry, items in sorted(by_entry.items()):
         if entry not in SPEC:
             continue
-        items = [x for x in items if len(x[0]) < 6000]          # keep the literals small
+        items = [x for x in items if len(x[0]) < 15000]          # keep the literals small
         rng.shuffle(items)
         n = 0
         for line, ans in items:
